@@ -147,6 +147,10 @@ def clause_lines(lines, key, kind, meta, indent="        "):
         label, prim, sup, text = split_label(ln)
         if label is not None:
             full = "%s.%s" % (key, label)
+            k = 2
+            while full in meta["labels"]:
+                full = "%s.%s#%d" % (key, label, k)
+                k += 1
             meta["labels"][full] = {"fn": key, "kind": kind, "primary": prim, "support": sup, "text": text}
             out.append("%s%s // @L:%s" % (indent, text, full))
         else:
